@@ -318,6 +318,15 @@ func (fv *FuncVC) execUnOp(x *ssa.UnOp) {
 		if p.Kind != PLocal {
 			fv.assumeType(v.T, x.Type())
 		}
+		if p.Kind == PGlobal && p.Global.Pkg != nil && len(p.Path) == 0 {
+			// sentinel errors (os.ErrNotExist, io.EOF, ErrTimeout ...) are non-nil package variables
+			if _, isIface := x.Type().Underlying().(*types.Interface); isIface && types.Identical(x.Type(), types.Universe.Lookup("error").Type()) {
+				n := p.Global.Name()
+				if strings.HasPrefix(n, "Err") || n == "EOF" || strings.HasPrefix(n, "err") {
+					fv.emit("(assert (not (= (i.typ " + v.T + ") 0)))")
+				}
+			}
+		}
 		v.Typ = x.Type()
 		fv.setReg(x, v)
 	case token.NOT:
